@@ -363,6 +363,7 @@ pub fn run(args: &Args) -> i32 {
             Fault::ResponseTruncated(n) if n % (if thorough { 40 } else { 21 }) != 0 => bound - 1,
             _ => bound,
         };
+        crate::evidence::watchdog::set_context(json!({"engine":"schedmc-c09","fault_index":i,"fault":fl[i].1.label(),"acceptor":format!("{:?}", fl[i].0),"tier": if thorough {"thorough"} else {"quick"}}));
         let stats = explore(
             my_bound,
             if thorough { 250_000 } else { 30_000 },
@@ -448,12 +449,17 @@ fn socket_scripts() -> Result<u64, String> {
         GarbageThenClose,
         TruncatedRequest,
         ResetAfterRequest,
+        /// a Unix-domain client whose own socket is bound to a path that is not UTF-8
+        NonUtf8PeerPath,
     }
-    let faults = [SockFault::None, SockFault::ResetBeforeAccept, SockFault::CloseBeforeAccept, SockFault::GarbageThenClose, SockFault::TruncatedRequest, SockFault::ResetAfterRequest];
+    let faults = [SockFault::None, SockFault::ResetBeforeAccept, SockFault::CloseBeforeAccept, SockFault::GarbageThenClose, SockFault::TruncatedRequest, SockFault::ResetAfterRequest, SockFault::NonUtf8PeerPath];
     for unix in [false, true] {
         for fault in faults {
             if unix && matches!(fault, SockFault::ResetBeforeAccept | SockFault::ResetAfterRequest) {
                 continue; // no RST on unix sockets
+            }
+            if !unix && matches!(fault, SockFault::NonUtf8PeerPath) {
+                continue;
             }
             let obs = new_obs();
             let sock_path = dir.path().join(format!("s{n}.sock"));
@@ -496,6 +502,22 @@ fn socket_scripts() -> Result<u64, String> {
                     SockFault::ResetAfterRequest => Some(good_request_bytes(77)),
                     _ => None,
                 };
+                if matches!(fault, SockFault::NonUtf8PeerPath) {
+                    use std::os::unix::ffi::OsStrExt;
+                    let mut raw = dir.path().as_os_str().as_bytes().to_vec();
+                    raw.extend_from_slice(b"/peer-\xff\xfe.sock");
+                    let peer_path = std::path::PathBuf::from(std::ffi::OsStr::from_bytes(&raw));
+                    let sock = socket2::Socket::new(socket2::Domain::UNIX, socket2::Type::STREAM, None).map_err(|e| e.to_string())?;
+                    sock.bind(&socket2::SockAddr::unix(&peer_path).map_err(|e| e.to_string())?).map_err(|e| format!("bind non-utf8 path: {e}"))?;
+                    sock.connect(&socket2::SockAddr::unix(&sock_path).map_err(|e| e.to_string())?).map_err(|e| format!("connect from non-utf8 path: {e}"))?;
+                    use std::io::Write;
+                    let mut st: std::os::unix::net::UnixStream = sock.into();
+                    let _ = st.write_all(&good_request_bytes(77));
+                    tokio::time::sleep(Duration::from_millis(30)).await;
+                    drop(st);
+                    let _ = std::fs::remove_file(&peer_path);
+                    tokio::time::sleep(Duration::from_millis(30)).await;
+                }
                 if let Some(b) = bytes {
                     if let Some(a) = tcp_addr {
                         let mut s = tokio::net::TcpStream::connect(a).await.map_err(|e| e.to_string())?;
